@@ -67,6 +67,14 @@ End Ext.
 Lemma omapM_ext {A B} (f g : A -> outcome B) : forall l, (forall x, f x = g x) -> omapM f l = omapM g l.
 Proof. intros l H. induction l as [|x l IH]; simpl; [reflexivity|]. now rewrite H, IH. Qed.
 
+Lemma omapM_refine {A B} (f g : A -> outcome B) : forall l r,
+  (forall x y, f x = Ok y -> g x = Ok y) -> omapM f l = Ok r -> omapM g l = Ok r.
+Proof.
+  induction l as [|x l IH]; intros r Hfg H; simpl in *; [exact H|].
+  destruct (f x) as [y|] eqn:E; [|discriminate]. destruct (omapM f l) as [ys|] eqn:M; [|discriminate].
+  rewrite (Hfg _ _ E), (IH ys Hfg eq_refl). exact H.
+Qed.
+
 (* nodes: the SPEC's loader is the loader *)
 Lemma read_node_loader_eq : forall en e, read_node_loader en e = load_node en e.
 Proof.
@@ -118,7 +126,10 @@ Proof.
   (* geometries *)
   destruct (omapM (load_geometry numtab) (geometry_elems root)) as [geoms|] eqn:G; [|discriminate H].
   rewrite (geometries_read _ _ _ F G). cbn [obind] in H |- *.
-  step H. step H. step H.
+  step H.
+  destruct (omapM (load_light numtab) (lib_elems a_library_lights a_light root)) as [lights|] eqn:LL; [|discriminate H].
+  rewrite (omapM_refine _ _ _ _ (load_light_refines numtab) LL). cbn [obind] in H |- *.
+  step H.
   assert (EN : map (fun g => (Some (g_id g), g_uid g)) (map (fun g => erase_geom g (g_sources g)) geoms)
                = map (fun g => (Some (g_id g), g_uid g)) geoms) by (rewrite map_map; reflexivity).
   rewrite EN.
